@@ -22,6 +22,8 @@ def main(argv=None):
     except ValueError:
         seed = 0
     try:
+        if not core.WALL_BUDGET:
+            core.WALL_BUDGET = 1500.0 if a.tier == "quick" else 6 * 3600.0
         core.ol()  # bind `oneliner` to the tree under test before anything else can import it
         mod = importlib.import_module("vf.checks." + pid.lower())
         if a.replay:
